@@ -386,3 +386,5 @@ R.METHODS[("Ty", "__getitem__")] = _ty_getitem
 @spec("has_args_")
 def _has_args_spec(ip, a, kw):
     return ZB(has_args(as_v(a[0])))
+
+R.EXTERNALS["builtins.Ellipsis"] = ZV(ELLIPSIS, "Ty")
